@@ -1287,7 +1287,10 @@ def _deps_satisfied(eng, m):
 def _blocking(eng, m):
     """Why the model thinks job m could not run"""
     if not _deps_satisfied(eng, m):
-        return "upstream-unfinished"
+        # secondary only while some upstream job is itself not final (that one is reported); an upstream
+        # that ended in error should have cancelled this job
+        pending = [u for u in m.ups if not eng.jobs[u].predone and not (eng.jobs[u].objs and eng.jobs[u].objs[-1].state.finished())]
+        return "upstream-unfinished" if pending else "upstream-failed"
     for ti, w in m.spec["toks"]:
         if w > eng.case["tokens"][ti]["total"]:
             return "request-exceeds-total"
